@@ -11,6 +11,7 @@ import AdaptixModel.MiniPy.Analyse
 import AdaptixModel.Morph.Scalars
 import AdaptixModel.Generated.DocTable
 import AdaptixProofs.Lemmas.MiniPy
+import AdaptixProofs.Lemmas.Catalogue
 
 namespace Adaptix.Morph.C07Leaves
 open Adaptix.Py Adaptix.MiniPy Adaptix.Morph Adaptix.Generated.Scalars Adaptix.Generated.DocTable
@@ -25,6 +26,11 @@ theorem mem_guardedL {c : SiteClass} {row : List SiteClass} (h : c ∈ row) : c 
   cases row with
   | nil => simp at h
   | cons a rest => simpa using h
+
+theorem siteWithin_guardedL {c : SiteClass} {row : List SiteClass} (h : SiteWithin row c) : c ∈ guardedL row := by
+  rcases h with h | ⟨hr, hc⟩
+  · exact mem_guardedL h
+  · subst hr; subst hc; simp [guardedL, uncatalogued]
 
 def aenvL (cat : String → String → List SiteClass) (f : Facts) : AEnv :=
   { ancestors := excAncestors, facts := f, catalogue := fun site => guardedL (cat f.tag site) }
@@ -55,8 +61,7 @@ theorem strict_origins_nonvacuous :
     catalogue allows — the datum's class is one of the documented allowed strict origins. -/
 theorem strict_scalar_respects_origins (oracle : SiteOracle) (s : String) (allowed : List String)
     (hs : (s, allowed) ∈ allowedStrictOrigins)
-    (hcat : ∀ prog cat, closureOf s true = some (prog, cat) →
-      ∀ d site, (oracle true s d site).cls ∈ cat (factsOf d).tag site)
+    (hcat : WithinCatalogue oracle)
     (d v : Val) (h : scalarLoadGen oracle true s d = .ok v)
     (htag : (factsOf d) ∈ tagFacts) :
     allowed.contains (tagClass (factsOf d).tag) = true := by
@@ -67,7 +72,7 @@ theorem strict_scalar_respects_origins (oracle : SiteOracle) (s : String) (allow
     obtain ⟨prog, cat⟩ := pc
     simp only [hc] at h
     have hresp : Respects (closureEnv oracle true s d) (aenvL cat (factsOf d)) :=
-      ⟨rfl, rfl, fun site => mem_guardedL (hcat prog cat hc d site)⟩
+      ⟨rfl, rfl, fun site => siteWithin_guardedL (hcat true s d prog cat hc site)⟩
     have hsound := runClosure_sound (closureEnv oracle true s d) (aenvL cat (factsOf d)) hresp prog
     have hret : (runClosure (closureEnv oracle true s d) prog).cls = .ret := by
       cases hr : runClosure (closureEnv oracle true s d) prog with
@@ -92,5 +97,9 @@ theorem strict_scalar_respects_origins (oracle : SiteOracle) (s : String) (allow
       apply List.mem_filter.2
       exact ⟨htag, by simpa using hsound⟩
     exact List.all_eq_true.1 hrow _ hin
+
+/-- the premises are met: under the catalogue-built oracle (`witness_within`) the strict int loader
+    does return on an int datum, so `strict_scalar_respects_origins` is applied to a real run -/
+example : (scalarLoadGen witnessOracle true "int" (.int 5)).isOk = true := by decide +kernel
 
 end Adaptix.Morph.C07Leaves
